@@ -1641,6 +1641,7 @@ func (p *process) Forward(
 // internal
 
 func (p *process) run() {
+	lib.VerifPoint("run.wake", p)
 	if atomic.CompareAndSwapInt32(
 		&p.state,
 		int32(gen.ProcessStateSleep),
@@ -1649,13 +1650,17 @@ func (p *process) run() {
 		// already running or terminated
 		return
 	}
+	lib.VerifPoint("run.spawn", p)
 	go func() {
+		lib.VerifPoint("run.begin", p)
+		defer lib.VerifPoint("run.end", p)
 		if lib.Recover() {
 			defer func() {
 				if rcv := recover(); rcv != nil {
 					pc, fn, line, _ := runtime.Caller(2)
 					p.log.Panic("process terminated - %#v at %s[%s:%d]",
 						rcv, runtime.FuncForPC(pc).Name(), fn, line)
+					lib.VerifPoint("run.panic", p)
 					old := atomic.SwapInt32(&p.state, int32(gen.ProcessStateTerminated))
 					if old == int32(gen.ProcessStateTerminated) {
 						return
@@ -1666,6 +1671,7 @@ func (p *process) run() {
 			}()
 		}
 	next:
+		lib.VerifPoint("run.loop", p)
 		startTime := time.Now().UnixNano()
 		// handle mailbox
 		if err := p.behavior.ProcessRun(); err != nil {
@@ -1678,6 +1684,7 @@ func (p *process) run() {
 				p.log.Error("process terminated abnormally - %s", err)
 			}
 
+			lib.VerifPoint("run.term", p)
 			old := atomic.SwapInt32(&p.state, int32(gen.ProcessStateTerminated))
 			if old == int32(gen.ProcessStateTerminated) {
 				return
@@ -1691,6 +1698,7 @@ func (p *process) run() {
 		// count the running time
 		p.runningTime = p.runningTime + uint64(time.Now().UnixNano()-startTime)
 
+		lib.VerifPoint("run.sleep", p)
 		// change running state to sleep
 		if atomic.CompareAndSwapInt32(
 			&p.state,
@@ -1698,6 +1706,7 @@ func (p *process) run() {
 			int32(gen.ProcessStateSleep),
 		) == false {
 			// process has been killed (was in zombee state)
+			lib.VerifPoint("run.zombie", p)
 			old := atomic.SwapInt32(&p.state, int32(gen.ProcessStateTerminated))
 			if old == int32(gen.ProcessStateTerminated) {
 				return
@@ -1706,6 +1715,7 @@ func (p *process) run() {
 			p.behavior.ProcessTerminate(gen.TerminateReasonKill)
 			return
 		}
+		lib.VerifPoint("run.recheck", p)
 		// check if something left in the inbox and try to handle it
 		if p.mailbox.Main.Item() == nil {
 			if p.mailbox.System.Item() == nil {
@@ -1717,6 +1727,7 @@ func (p *process) run() {
 				}
 			}
 		}
+		lib.VerifPoint("run.reacquire", p)
 		// we got a new messages. try to use this goroutine again
 		if atomic.CompareAndSwapInt32(
 			&p.state,
@@ -1766,6 +1777,7 @@ func (p *process) waitResponse(ref gen.Ref, timeout int) (any, error) {
 	var response any
 	var err error
 
+	lib.VerifPoint("wait.enter", p)
 	if swapped := atomic.CompareAndSwapInt32(&p.state, int32(gen.ProcessStateRunning), int32(gen.ProcessStateWaitResponse)); swapped == false {
 		return nil, gen.ErrNotAllowed
 	}
@@ -1779,6 +1791,7 @@ func (p *process) waitResponse(ref gen.Ref, timeout int) (any, error) {
 		timer.Reset(time.Second * time.Duration(timeout))
 	}
 
+	lib.VerifPoint("wait.block", p)
 retry:
 	select {
 	case <-timer.C:
@@ -1800,6 +1813,7 @@ retry:
 		err = r.err
 	}
 
+	lib.VerifPoint("wait.leave", p)
 	if swapped := atomic.CompareAndSwapInt32(&p.state, int32(gen.ProcessStateWaitResponse), int32(gen.ProcessStateRunning)); swapped == false {
 		return nil, gen.ErrProcessTerminated
 	}
